@@ -135,10 +135,23 @@ def run(index, rep, tier):
                         return False
                     cp = compare_parts(n.ast)
                     return bool(cp) and cp[1] in ("NotIn", "In") and norm(cp[0]) == key and "taxon_namespace" in norm(cp[2])
-                from_ns = False
-                for d in walk_no_nested(fi.node):
-                    if isinstance(d, ast.Assign) and norm(d.targets[0]) == key and isinstance(d.value, ast.Call) and call_name(d.value) in ("require_taxon", "new_taxon", "get_taxon", "_resolve_key") and "taxon_namespace" in norm(d.value.func) + fi.name + "taxon_namespace":
-                        from_ns = call_name(d.value) in ("require_taxon", "new_taxon")
+                # flow-sensitive: every definition of the key that can reach the store (without being overwritten) either takes the
+                # taxon from the namespace (require_taxon / new_taxon) or is followed, on every path to the store, by add_taxon(key)
+                def is_def(n, key=key):
+                    return n.kind == "stmt" and isinstance(n.ast, ast.Assign) and any(norm(t) == key for t in n.ast.targets)
+
+                def binds(n, key=key):
+                    return any(call_name(c) == "add_taxon" and c.args and norm(c.args[0]) == key and "taxon_namespace" in norm(c.func) for c in node_calls(n)) or member_test(n)
+                defs = [d for d in cfg.nodes if is_def(d)]
+                from_ns = bool(defs)
+                for d in defs:
+                    if cfg.can_reach(d, lambda x: x is wn, avoid=is_def, follow_exc=False) is None:
+                        continue        # overwritten before the store
+                    v = d.ast.value
+                    if isinstance(v, ast.Call) and call_name(v) in ("require_taxon", "new_taxon") and "taxon_namespace" in norm(v.func):
+                        continue
+                    if cfg.can_reach(d, lambda x: x is wn, avoid=lambda x: is_def(x) or binds(x), follow_exc=False) is not None:
+                        from_ns = False
                 ok = cfg.dominated_by(wn, member_test) or (bool(guards) and cfg.dominated_by(wn, lambda n: n.id in guards)) or from_ns
                 how = "membership test" if cfg.dominated_by(wn, member_test) else ("namespace guard on the source matrix" if guards else ("taxon obtained from the namespace" if from_ns else "?"))
                 rep.check(ok, "R11.3", fi.qualname, "row keyed by unchecked taxon: " + norm_stmt(w.stmt)[:70], fn_where(fi, w.stmt), "%s: row store `%s` keyed by a member (%s)" % (fi.name, norm_stmt(w.stmt)[:40], how),
